@@ -151,6 +151,13 @@ fn poke_accessors<O: AsRef<[u8]> + Octets, N: ToName>(d: &AllRecordData<O, N>) -
                 let _ = s.len();
             }
             let _ = t.try_text::<Vec<u8>>().map(|v| v.len());
+            let mut n = 0usize;
+            for s in t.iter_charstrs() {
+                n += 1;
+                vensure!(n <= 70_000, "txt-iter-unbounded", "Txt::iter_charstrs unbounded");
+                let _ = s.len();
+            }
+            let _ = (t.len(), t.as_flat_slice().map(|s| s.len()));
         }
         AllRecordData::Nsec(n) => {
             let mut k = 0usize;
